@@ -51,6 +51,35 @@ def extract(repo):
             raise ExtractError("lss client/driver.rs: remove_and_check_hmacs no longer mentions `%s`; adapt translate/x_lss.py" % needle)
     if not re.search(r"InvalidHmac\(String,\s*i64\)", driver):
         raise ExtractError("lss client/driver.rs: ClientError::InvalidHmac(String, i64) not found")
+    # PrivClient::get / PrivClient::put: the whole bodies, verbatim, behind a mock transport: the one expression that
+    # talks to the server and the path to the shared secret are the only things rewritten (each must occur exactly as
+    # expected, else fail closed).  `.await` disappears with the transport call, so the functions become synchronous.
+    priv = driver[driver.index("impl PrivClient {"):] if "impl PrivClient {" in driver else None
+    if priv is None:
+        raise ExtractError("lss client/driver.rs: impl PrivClient not found")
+    pget = balanced_fn(priv, "pub async fn get(")
+    pput = balanced_fn(priv, "pub async fn put(")
+    def rewrite(fn, name, edits):
+        for old_, new_, cnt in edits:
+            if fn.count(old_) != cnt:
+                raise ExtractError("lss client/driver.rs: PrivClient::%s: expected %d x `%s`, found %d" % (name, cnt, old_, fn.count(old_)))
+            fn = fn.replace(old_, new_)
+        if ".await" in fn or "self." in fn:
+            raise ExtractError("lss client/driver.rs: PrivClient::%s still refers to self/.await after the rewrite; adapt translate/x_lss.py" % name)
+        return fn
+    pget = rewrite(pget, "get", [
+        ("pub async fn get(\n        &mut self,", "pub fn privclient_get(\n        shared_secret: &[u8],\n        transport: &mut dyn FnMut(String, &[u8]) -> Result<(Vec<(String, Value)>, Vec<u8>), ClientError>,", 1),
+        ("self.client.get(key_prefix, &nonce).await?", "transport(key_prefix, &nonce)?", 1),
+        ("&self.auth.shared_secret", "shared_secret", 1),
+    ])
+    pput = rewrite(pput, "put", [
+        ("pub async fn put(\n        &mut self,", "pub fn privclient_put(\n        shared_secret: &[u8],\n        transport: &mut dyn FnMut(Vec<(String, Value)>, &[u8]) -> Result<Vec<u8>, ClientError>,", 1),
+        ("self.client.put(kvs, &client_hmac).await", "transport(kvs, &client_hmac)", 1),
+        ("&self.auth.shared_secret", "shared_secret", 2),
+    ])
+    for variant in ("InvalidServerHmac()", "PutConflict(Vec<(String, Value)>)"):
+        if variant not in driver:
+            raise ExtractError("lss client/driver.rs: ClientError::%s not found" % variant)
     chacha = read(repo, "lightning-storage-server/lib/src/chacha20.rs")
     model = read(repo, "lightning-storage-server/lib/src/model.rs")
     cargo = read(repo, "lightning-storage-server/lib/Cargo.toml")
@@ -74,17 +103,25 @@ def extract(repo):
     out = ("// GENERATED by translate/x_lss.py from /repo/lightning-storage-server/lib/src/{util,chacha20}.rs on every\n"
            "// run of bin/check (verbatim apart from the crate-path `use` lines).  Do not edit by hand.\n"
            "#![allow(dead_code, unused_imports, unused_macros, unexpected_cfgs, clippy::all)]\n"
-           "pub struct Value {\n    pub version: i64,\n    pub value: Vec<u8>,\n}\n\n"
+           "#[derive(Clone, Debug, PartialEq)]\npub struct Value {\n    pub version: i64,\n    pub value: Vec<u8>,\n}\n\n"
            "pub mod chacha20 {\n" + chacha + "\n}\n\n"
            "pub mod util {\n" + src + "\n}\n\n"
            "/// `remove_and_check_hmacs` of lib/src/client/driver.rs, verbatim; `ClientError` is reduced to the one variant\n"
            "/// the function constructs (the real enum also carries tonic transport errors)\n"
            "pub mod driver {\n"
-           "    use super::util::process_value_from_get;\n"
+           "    use super::util::{compute_shared_hmac, prepare_value_for_put, process_value_from_get};\n"
            "    use super::Value;\n"
+           "    use lightning_signer::bitcoin::secp256k1::rand::rngs::OsRng;\n"
+           "    use lightning_signer::bitcoin::secp256k1::rand::RngCore;\n"
+           "    macro_rules! debug { ($($t:tt)*) => {{}}; }\n"
+           "    macro_rules! error { ($($t:tt)*) => {{}}; }\n"
            "    #[derive(Debug)]\n"
-           "    pub enum ClientError {\n        InvalidHmac(String, i64),\n    }\n"
-           "    pub " + rach.replace("\n", "\n    ") + "\n}\n")
+           "    pub enum ClientError {\n        InvalidHmac(String, i64),\n        InvalidServerHmac(),\n        PutConflict(Vec<(String, Value)>),\n        /// mock transport failure\n        InvalidResponse,\n    }\n"
+           "    pub " + rach.replace("\n", "\n    ") + "\n\n"
+           "    /// `PrivClient::get`, verbatim behind a mock transport\n"
+           "    " + pget.replace("\n    ", "\n") .replace("\n", "\n    ") + "\n\n"
+           "    /// `PrivClient::put`, verbatim behind a mock transport\n"
+           "    " + pput.replace("\n    ", "\n").replace("\n", "\n    ") + "\n}\n")
     old = open(TARGET).read() if os.path.exists(TARGET) else None
     if old != out:
         with open(TARGET, "w") as fh:
